@@ -76,7 +76,23 @@ pub fn run_enum(args: &Args, mut out: Out) {
     for j in 0..sample {
         sid += 1;
         // favour adds early so that lists grow long before removals
-        let seq: Vec<(String, String)> = if j % 6 == 4 {
+        let seq: Vec<(String, String)> = if j % 6 == 1 {
+            // lookup names need not be ASCII (`impl AsRef<str>`): characters whose Unicode case mapping lands in ASCII
+            // (KELVIN SIGN -> k, LONG S -> S, dotted capital I -> i + combining dot) match nothing, names are compared
+            // as ASCII bytes
+            let stored = ["k", "K", "s", "S", "i", "ke", "KE"];
+            let looked = ["k", "K", "s", "ke", "\u{212A}", "\u{212A}e", "\u{212A}E", "\u{17F}", "\u{130}", "\u{e9}"];
+            (0..sample_depth)
+                .map(|i| {
+                    if i < sample_depth / 2 && rng.gen_bool(0.7) {
+                        ("add".to_string(), (*stored.choose(&mut rng).unwrap()).to_string())
+                    } else {
+                        let op = *["get_only", "get_all", "remove_only", "remove_all"].choose(&mut rng).unwrap();
+                        (op.to_string(), (*looked.choose(&mut rng).unwrap()).to_string())
+                    }
+                })
+                .collect()
+        } else if j % 6 == 4 {
             // names related as prefix / suffix / repetition of one another (and in either letter case): a lookup must match
             // the whole name
             let pool = ["a", "ab", "abc", "A", "AB", "aB", "a-", "-a", "aa", "b-a", "a-b", "content-length", "content-length-hint", "x-content-length", "Content-Len"];
